@@ -9,7 +9,7 @@ usage: seedval.py validate <Cxx> <n>
 """
 import json, os, shutil, subprocess, sys, time
 
-ENV = dict(os.environ, GOFLAGS="-mod=mod", GOPROXY="off")
+ENV = dict(os.environ, GOFLAGS="-mod=mod", GOPROXY="off", DETECT_COMMITTED=os.environ.get("DETECT_COMMITTED", "1"))
 SEED = "/tmp/seed"
 
 
@@ -89,7 +89,7 @@ def detect(pid, n, checks, tier):
         rc, o = sh(f"/verif/tools/detect.sh {c} {diff} {tier} {pid}m{n}{c}", timeout=7200)
         lines = o.strip().splitlines()
         viol = [l for l in lines if l.startswith("VIOLATION") or (l.startswith("violations=") and l != "violations=0")]
-        results.append({"check": c, "tier": tier, "exit": rc, "detected": rc == 1 and bool(viol), "lines": [l[:260] for l in lines[:8]], "wall_s": round(time.time() - t0, 1)})
+        results.append({"check": c, "tier": tier, "exit": rc, "detected": rc == 1 and bool(viol), "keys": [l.strip()[5:] for l in lines if l.startswith("   key: ")], "lines": [l[:260] for l in lines[:8]], "wall_s": round(time.time() - t0, 1)})
     p = f"{out}/m{n}.det.json"
     old = json.load(open(p)) if os.path.exists(p) else []
     old = [r for r in old if not any(r["check"] == x["check"] and r["tier"] == x["tier"] for x in results)] + results
@@ -113,7 +113,7 @@ def keep(pid, n):
         "description": open(md).read() if os.path.exists(md) else "",
         "validation": {k: val.get(k) for k in ("applies", "builds", "suite_passes_with_change", "demo_fails_with_change", "demo_passes_without_change", "demo_where", "demo_cmd", "diffstat")},
         "what_was_run": "scratch worktree of /repo HEAD: git apply patch.diff; go build ./...; go test -vet=off -count=1 ./... (all ok); demo copied to demo_where and demo_cmd run (fails); git apply -R; demo_cmd run again (passes); worktree removed",
-        "detection": [{k: r[k] for k in ("check", "tier", "detected", "exit", "wall_s")} | {"first_line": next((l for l in r["lines"] if l.startswith("VIOLATION")), "")[:200]} for r in det],
+        "detection": [{k: r[k] for k in ("check", "tier", "detected", "exit", "wall_s")} | {"violation_keys": r.get("keys", [])[:6]} for r in det],
     }
     json.dump(meta, open(f"{d}/meta.json", "w"), indent=1)
     print("kept", d)
